@@ -9,6 +9,7 @@ package main
 import (
 	"fmt"
 	"io"
+	"os"
 	"runtime"
 	"sort"
 	"strings"
@@ -722,6 +723,11 @@ func runAllResults(ctx *hx.Ctx, cases []caseSpec, workers int) []caseResult {
 			continue
 		}
 		idx := ctx.Corr(r.caseLine, r.implLine)
+		if os.Getenv("VERIF_TRACE") != "" {
+			for _, o := range r.obs {
+				fmt.Fprintf(os.Stderr, "TRACE %v sent=%v status=%d sid=%d linked=%d open=%v states=%v tcp=%v target=%d\n", o.req, o.sent, o.status, o.sid, o.linked, o.open, o.states, o.tcp, o.target)
+			}
+		}
 		ctx.Eval()
 		ctx.Kind(cases[i].kind)
 		ctx.Nontrivial(r.nontrivial)
